@@ -34,7 +34,7 @@ func runC17(r *Report, p *Program) {
 
 func c17R1(h H) {
 	r := h.r
-	r.Rule("R1", "the body is wrapped before the handlers see it: Limit.ServeHTTP, evaluated abstractly (E10) for every list of up to three path limits, every set of matching entries and body present/absent, invokes the next handler exactly once with the body wrapped by a reader carrying the first matching entry's limit, or untouched when nothing matches or there is no body; parseLimits calls SortPathLimits on the slice before storing it into the site config; the comparator orders by longer path first", 3)
+	r.Rule("R1", "the body is wrapped before the handlers see it: Limit.ServeHTTP, evaluated abstractly (E10) for every list of up to three (thorough tier: five) path limits, every set of matching entries and body present/absent, invokes the next handler exactly once with the body wrapped by a reader carrying the first matching entry's limit, or untouched when nothing matches or there is no body; parseLimits calls SortPathLimits on the slice before storing it into the site config; the comparator orders by longer path first", 3)
 	if pl := h.fn("R1", limPkg, "parseLimits"); pl != nil {
 		sorts := callsTo(pl, "limits.SortPathLimits")
 		n := 0
@@ -118,7 +118,7 @@ func lenOfParamField(v ssa.Value) int {
 }
 
 func c17R2(h H) {
-	h.r.Rule("R2", "the limiting reader as a decision table (E10): maxBytesReader.Read is evaluated for every remaining allowance 0–3, buffer length 0–5, remembered error {none, some error, too-large} and every (count, error) the source can return; it must return the remembered error without touching the source, (0, nil) for an empty buffer, and otherwise read the source exactly once asking for min(len(p), remaining+1) bytes, pass the result through and account for it when within the allowance, and cut it to the allowance with ErrMaxBytesExceeded (remembered from then on, allowance 0) when beyond", 1)
+	h.r.Rule("R2", "the limiting reader as a decision table (E10): maxBytesReader.Read is evaluated for every remaining allowance 0–3, buffer length 0–5 (thorough tier: 0–6 and 0–9), remembered error {none, some error, too-large} and every (count, error) the source can return; it must return the remembered error without touching the source, (0, nil) for an empty buffer, and otherwise read the source exactly once asking for min(len(p), remaining+1) bytes, pass the result through and account for it when within the allowance, and cut it to the allowance with ErrMaxBytesExceeded (remembered from then on, allowance 0) when beyond", 1)
 }
 
 func c17R3(h H) {
@@ -231,7 +231,7 @@ func c17R3(h H) {
 
 func c17R4(h H) {
 	r := h.r
-	r.Rule("R4", "strictest-of merge, decided as a decision table: makeHTTPServerWithTimeouts and makeHTTPServerWithHeaderLimit are evaluated abstractly (E10: booleans concrete, durations/sizes as ordered symbols) for every group of 0–3 sites, every combination of set/unset and every relative order of the set values; in every case each listener setting must come out as the smallest value among the sites that set it, and as the default (header limit: untouched) exactly when no site set it", 2)
+	r.Rule("R4", "strictest-of merge, decided as a decision table: makeHTTPServerWithTimeouts and makeHTTPServerWithHeaderLimit are evaluated abstractly (E10: booleans concrete, durations/sizes as ordered symbols) for every group of 0–3 (thorough tier: 0–4) sites, every combination of set/unset and every relative order of the set values; in every case each listener setting must come out as the smallest value among the sites that set it, and as the default (header limit: untouched) exactly when no site set it", 2)
 	fields := []string{"ReadTimeout", "ReadHeaderTimeout", "WriteTimeout", "IdleTimeout"}
 	symRank := func(rank []int) func(a, b aval) (int, bool) {
 		rk := func(v aval) (int, bool) {
@@ -265,7 +265,7 @@ func c17R4(h H) {
 		rank []int
 	}
 	var cases []caseT
-	for n := 0; n <= 3; n++ {
+	for n := 0; n <= tb(3, 4); n++ {
 		for m := 0; m < 1<<n; m++ {
 			set := make([]bool, n)
 			for i := range set {
@@ -475,7 +475,7 @@ func c17Tables(h H) {
 			}
 		}
 		bad, nrun := "", 0
-		for n := 0; n <= 3 && bad == "" && plT != nil; n++ {
+		for n := 0; n <= tb(3, 5) && bad == "" && plT != nil; n++ {
 			for m := 0; m < 1<<n && bad == ""; m++ {
 				for _, hasBody := range []bool{true, false} {
 					var seenBody aval
@@ -606,8 +606,8 @@ func c17Tables(h H) {
 			k   int64
 			err string // "", "eof", "other"
 		}
-		for remaining := int64(0); remaining <= 3 && bad == ""; remaining++ {
-			for plen := int64(0); plen <= 5 && bad == ""; plen++ {
+		for remaining := int64(0); remaining <= int64(tb(3, 6)) && bad == ""; remaining++ {
+			for plen := int64(0); plen <= int64(tb(5, 9)) && bad == ""; plen++ {
 				for _, sticky := range []string{"", "other", "toolarge"} {
 					want := plen
 					if want > remaining+1 {
